@@ -150,6 +150,7 @@ func runC15(cs c15Case, wts *wt.Server) (viol string, stats map[string]bool) {
 	i := 0
 	var prevReader io.Reader
 	prevIdx := -1
+	abandonedTruncated := false // the message before was left half read and its frame is cut short by the end of the stream
 	for ; ; i++ {
 		var mt int
 		var r io.Reader
@@ -207,6 +208,9 @@ func runC15(cs c15Case, wts *wt.Server) (viol string, stats map[string]bool) {
 			stats["stale-reader-read"] = true
 		}
 		atEnd := i >= len(frames)
+		if !atEnd {
+			abandonedTruncated = abandonedTruncated && false
+		}
 		var f scanFrame
 		if !atEnd {
 			f = frames[i]
@@ -217,6 +221,14 @@ func runC15(cs c15Case, wts *wt.Server) (viol string, stats map[string]bool) {
 			}
 			if r != nil {
 				return fmt.Sprintf("NextReader #%d returned an error and a reader", i), stats
+			}
+			if !cs.TailErr && atEnd && abandonedTruncated && !isUnexpectedEnd(err) {
+				// the application left a message half read, and the stream ended inside that very frame: skipping
+				// the rest of it runs into the end of the stream, which is an end inside a frame
+				return fmt.Sprintf("NextReader #%d: the frame before was left half read and the stream ends inside it (%d of %d declared bytes arrived); error is %v, want an unexpected-end error", i, len(frames[i-1].avail), frames[i-1].declared, err), stats
+			}
+			if atEnd && abandonedTruncated {
+				stats["stream-ends-inside-a-frame-left-half-read"] = true
 			}
 			if !cs.TailErr && !atEnd && !isUnexpectedEnd(err) {
 				return fmt.Sprintf("NextReader #%d: stream ends inside a frame header (%d byte(s) of it arrived), error is %v, want an unexpected-end error", i, hdrBytesOfLast(cs.Stream, frames), err), stats
@@ -343,6 +355,7 @@ func runC15(cs c15Case, wts *wt.Server) (viol string, stats map[string]bool) {
 			}
 		} else {
 			stats["abandoned"] = true
+			abandonedTruncated = !f.complete
 		}
 		if i > len(frames)+2 {
 			return "harness: runaway loop", stats
@@ -495,7 +508,7 @@ func TestC15ReaderTotal(t *testing.T) {
 			rt.Fatalf("%s\ncase: %v", viol, cs)
 		}
 	})
-	col.RequireClasses(t, "over-limit", "limit-closed-session", "truncated-payload", "truncated-header", "abandoned", "len>=2^63", "complete-message", "stale-reader-read", "ReadMessage", "truncated-payload+end-with-last-bytes")
+	col.RequireClasses(t, "over-limit", "limit-closed-session", "truncated-payload", "truncated-header", "abandoned", "len>=2^63", "complete-message", "stale-reader-read", "ReadMessage", "truncated-payload+end-with-last-bytes", "stream-ends-inside-a-frame-left-half-read")
 }
 
 // Truncation at *every* offset of a generated valid stream.
